@@ -42,8 +42,21 @@ func (r *RunResult) Violate(prop, kind string, step int, format string, a ...any
 	r.Violations = append(r.Violations, Violation{Prop: prop, Kind: kind, Step: step, Detail: fmt.Sprintf(format, a...)})
 }
 
-func (r *RunResult) Probe(name string)         { r.Probes[name]++ }
-func (r *RunResult) Fault(name string)         { r.Faults[name]++ }
+func (r *RunResult) Probe(name string) { r.Probes[name]++ }
+func (r *RunResult) Fault(name string) { r.Faults[name]++ }
+
+// Thorough selects the deeper per-run bounds of the thorough tier (larger reference budgets, longer
+// sessions, more cancellation points); the quick tier uses the smaller ones. Set once by the worker.
+var Thorough bool
+
+// Scale returns q in the quick tier and t in the thorough tier.
+func Scale(q, t int) int {
+	if Thorough {
+		return t
+	}
+	return q
+}
+
 // TraceSink, when set (VERIF_TRACE_LOG), receives every trace line as it is produced, so that the
 // decoded trace of a run that kills its process can still be put into the replay file.
 var TraceSink *os.File
